@@ -188,12 +188,16 @@ func decideFlagFrom(tlvs []tlv) byte {
 func (c *Conversation) processSMPTLV(t tlv, x dataMessageExtra) (toSend *tlv, err error) {
 	c.smp.ensureSMP()
 
-	smpMessage, ok := t.smpMessage()
+	msg, ok := t.smpMessage()
 	if !ok {
-		return nil, newOtrError("corrupt data message")
+		// a malformed SMP message ends the current run like any other cheating attempt
+		var abort smpMessage
+		c.smp.state, abort, _ = c.abortStateMachineAndNotifyCheated()
+		abortTLV := abort.tlv()
+		return &abortTLV, nil
 	}
 
-	return c.receiveSMP(smpMessage)
+	return c.receiveSMP(msg)
 }
 
 func (c *Conversation) processTLVs(tlvs []tlv, x dataMessageExtra) ([]tlv, error) {
